@@ -609,11 +609,12 @@ int disasm_riscv_comp(
             immediate);
           return 2;
         case OP_COMP_RD_17_1612:
+          // Like lui: the operand is the value of the immediate field.
           immediate = permutate_16(opcode, RiscvPerm::imm17_1612);
-          snprintf(instruction, length, "%s %s, 0x%04x",
+          snprintf(instruction, length, "%s %s, 0x%02x",
             instr,
             riscv_reg_names[rs1_32],
-            immediate);
+            (immediate >> 12) & 0x3f);
           return 2;
         case OP_COMP_RD_NZ5_40:
         case OP_COMP_RD_5_40:
